@@ -312,6 +312,7 @@ def compare_sequence(ast, packages, texts, late=None):
         comp.main_xml = gen.render_schema(ast)
     _LINK["n"] += 1
     comp.link_packages = _LINK["n"] % 3 == 0       # package directories that are symbolic links
+    comp.fixed_root = _LINK["n"] % 2 == 0          # the same file names as the case before last, other contents
     use_registry = False
     if _LINK["n"] % 4 == 1:
         for p_ in comp.packages:
